@@ -192,6 +192,47 @@ def blocking_suite(ctx):
     return s
 
 
+EMPTY_SPELLINGS = ["[]", "()", "''", "range(0)", "enumerate([])", "zip()", "zip([1, 2], [])", "reversed(())", "iter(())", "{}", "set()", "list()", "tuple()", "dict()", "frozenset()", "sorted(())", "range(3, 3)"]
+NONEMPTY_SPELLINGS = ["[1, 2]", "(1, 2)", "'ab'", "range(2)", "enumerate([7])", "zip([1], [2])", "reversed([1])", "{1: 2}", "sorted([2, 1])", "list((1,))", "iter([0])", "[None]", "[[]]", "(0,)"]
+
+
+def iterable_spellings_suite(ctx):
+    """constant iterables in every spelling literal_value can evaluate (displays, ranges, lazy iterators such as enumerate / zip / reversed /
+    iter that are truthy even when they yield nothing): the model sees only 'empty' / 'non-empty'"""
+    from pyrefact import core
+
+    s = Suite("iterable-spellings")
+    bodies = [[["ret"]], [["simple", 0], ["ret"]], [["if", "unk", [["ret"]], [["raise"]]]], [["simple", 0]], [["if", "unk", [["brk"]], []], ["ret"]]]
+    reqs, metas = [], []
+    for kind, spellings in (("empty", EMPTY_SPELLINGS), ("nonempty", NONEMPTY_SPELLINGS)):
+        for sp in spellings:
+            for body in bodies:
+                for orelse in ([], [["ret"]]):
+                    for parent in ("none", "loop"):
+                        st = ["for", kind, body, orelse]
+                        reqs.append({"suite": "blocking", "stmt": st, "parent": parent})
+                        metas.append((st, parent, sp))
+    answers = ctx.driver.ask(reqs)
+    for (st, parent, sp), ans in zip(metas, answers):
+        s.cases += 1
+        wrap = "def f(xs):\n    for __ in xs:\n" + (static_render([st], 2).replace("[1, 2]", sp) if st[1] == "nonempty" else static_render([st], 2).replace("[]", sp, 1)) + "\n"
+        try:
+            node = ast.parse(wrap).body[0].body[0].body[0]
+            assert isinstance(node, ast.For) and ast.unparse(node.iter) == ast.unparse(ast.parse(sp, mode="eval").body), wrap
+            real = bool(core.is_blocking(node, ast.For if parent == "loop" else None))
+        except Exception as ex:  # noqa: BLE001
+            s.disagreements.append({"stmt": st, "parent": parent, "iter": sp, "what": f"is_blocking raised {ex!r}"})
+            continue
+        if ans.get("b") != real:
+            s.disagreements.append({"stmt": st, "parent": parent, "iter": sp, "src": wrap, "model": ans.get("b"), "real": real,
+                                    "what": f"is_blocking differs from the model for the constant iterable {sp}"})
+        s.count(("lazy " if "(" in sp and not sp.startswith("(") else "display ") + st[1])
+        s.nt([st, parent, sp])
+    s.note = ("17 empty and 14 non-empty constant iterables (displays, strings, ranges, constructor calls, lazy iterators: enumerate, zip, reversed, iter, sorted) x 5 loop bodies x {no else, else: return} x parent in {function, loop}: "
+              "core.is_blocking on the for statement vs the model, which knows only whether the first iteration is entered; non-trivial = every case")
+    return s
+
+
 PRELUDE = '''
 class _B(BaseException): pass
 class _Never(Exception): pass
@@ -699,7 +740,7 @@ def safecalls_suite(ctx):
 
 def suites(ctx):
     common.import_pyrefact()
-    return [blocking_suite(ctx), exec_suite(ctx), sideeffect_suite(ctx), safecalls_suite(ctx), unreachable_oracle(ctx), position_probe(ctx), pointless_oracle(ctx)]
+    return [blocking_suite(ctx), iterable_spellings_suite(ctx), exec_suite(ctx), sideeffect_suite(ctx), safecalls_suite(ctx), unreachable_oracle(ctx), position_probe(ctx), pointless_oracle(ctx)]
 
 
 def match_known(d, known):
@@ -718,9 +759,52 @@ def replay_witness(ctx, kf):
     return None
 
 
+def _run_closed(src):
+    import contextlib
+    import io
+
+    buf = io.StringIO()
+    try:
+        with contextlib.redirect_stdout(buf):
+            exec(compile(src, "<closed>", "exec"), {"__name__": "__main__"})
+        return buf.getvalue(), None
+    except Exception as ex:  # noqa: BLE001
+        return buf.getvalue(), type(ex).__name__
+
+
+def spelling_search(inputs):
+    """is_blocking and the model disagree on a for loop over a constant iterable: put that loop in front of observable code and execute"""
+    import pyrefact
+    from pyrefact import fixes
+
+    found = []
+    templates = ["def f(log):\n    for i in {sp}:\n        return 'in'\n    log.append('after')\n    return 'end'\n\n\nL = []\nprint(f(L), L)\n",
+                 "def helper(log):\n    for _ in {sp}:\n        return None\n    log.append('x')\n\n\nL = []\nhelper(L)\nprint(L)\n",
+                 "def g(log):\n    for i in {sp}:\n        log.append(i)\n    else:\n        return 'else'\n    return 'after'\n\n\nL = []\nprint(g(L), len(L))\n"]
+    for sp in dict.fromkeys(d.get("iter") for d in inputs if d.get("iter")):
+        for tmpl in templates:
+            src = tmpl.format(sp=sp)
+            for name, rule in (("fixes.delete_unreachable_code", fixes.delete_unreachable_code), ("fixes.delete_pointless_statements", fixes.delete_pointless_statements), ("format_code", pyrefact.format_code)):
+                try:
+                    out = rule(src)
+                except Exception:  # noqa: BLE001
+                    continue
+                if out != src and _run_closed(src) != _run_closed(out):
+                    found.append({"src": src, "out": out, "rule": name, "iter": sp, "what": f"{name} changes what a program with 'for ... in {sp}' prints: {_run_closed(src)} -> {_run_closed(out)}"})
+                    break
+            if len(found) >= 3:
+                return found
+    return found
+
+
 def search(ctx, breaks):
     common.import_pyrefact()
     ctx2 = ctx
+    spelled = [d for b in breaks for d in b.get("inputs", []) if d.get("iter")]
+    if spelled:
+        hit = spelling_search(spelled)
+        if hit:
+            return hit
     # first the statements on which is_blocking and the model disagree, each followed by an observable statement, at function
     # level and inside a loop; then the general oracle
     bodies = []
@@ -743,6 +827,8 @@ def replay(ctx, inp):
     from pyrefact import fixes
     if "expr" in inp:
         return bool([d for d in position_probe(ctx).disagreements if d["expr"] == inp["expr"]])
+    if "iter" in inp and "rule" in inp:
+        return bool(spelling_search([inp]))
     out = fixes.delete_unreachable_code(inp["src"])
     print(out)
     return out == inp.get("out")
